@@ -10,7 +10,10 @@ Fixpoint zseq (start : Z) (k : nat) : list Z := match k with O => [] | S k' => s
 
 (* membership *)
 Definition mem64 (w : N) (j : Z) : bool := (0 <=? j) && (j <? 64) && N.testbit w (Z.to_N j).
-Definition mem1024 (ws : list N) (j : Z) : bool := member (of_list ws) j.
+(* j is in the bitmap: bit (j mod 64) of word (j / 64), for 0 <= j < 1024 (written with shifts so that the
+   driver evaluates it quickly; mem1024_member in C08_Proofs.v: it is BitSet.member) *)
+Definition mem1024 (ws : list N) (j : Z) : bool :=
+  (0 <=? j) && (j <? 1024) && N.testbit (nth (Z.to_nat (Z.shiftr j 6)) ws 0%N) (Z.to_N (Z.land j 63)).
 (* members in ascending order *)
 Definition members64 (w : N) : list Z := filter (mem64 w) (zseq 0 64).
 Definition members1024 (ws : list N) : list Z := filter (mem1024 ws) (zseq 0 1024).
@@ -20,7 +23,7 @@ Definition wfw (w : N) : bool := N.ltb w W.
 Definition wfws (ws : list N) : bool := Nat.eqb (length ws) 16 && forallb wfw ws.
 
 (* the first n elements (n may be negative or huge: no conversion to nat) *)
-Fixpoint ztake (n : Z) (l : list Z) : list Z :=
+Fixpoint ztake {A} (n : Z) (l : list A) : list A :=
   match l with [] => [] | x :: r => if n <=? 0 then [] else x :: ztake (n - 1) r end.
 
 (* the slice after writing vals at pos *)
@@ -43,6 +46,36 @@ Definition spec_iter (ty : ity) (rev : bool) (ms : list Z) (s : list Z) (pos add
 Definition spec_getn (ty : ity) (rev : bool) (ms : list Z) (n : Z) : gout :=
   if n <? 0 then GPanic
   else GOk (map (fun m => norm ty m) (ztake n (if rev then List.rev ms else ms))).
+
+(* ---- the set half: what the result of each operation must contain ---- *)
+Definition count_if (p : Z -> bool) (l : list Z) : Z := Z.of_nat (length (filter p l)).
+Definition same_set (p q : Z -> bool) (dom : list Z) : bool := forallb (fun j => Bool.eqb (p j) (q j)) dom.
+Definition in1024 (i : Z) : bool := (0 <=? i) && (i <? 1024).
+Definition dom1024 := zseq 0 1024.
+Definition dom64 := zseq 0 64.
+
+(* Set / Unset of index i: membership of exactly i changes when 0 <= i < 1024, nothing changes otherwise *)
+Definition point_expect (k : pkind) (ws : list N) (i j : Z) : bool :=
+  match k with
+  | PSetI32 | PSetI16 => (in1024 i && Z.eqb j i) || mem1024 ws j
+  | PUnsetI32 | PUnsetI16 => negb (in1024 i && Z.eqb j i) && mem1024 ws j
+  end.
+(* intersection, union, complement of the union *)
+Definition bin_expect (k : bkind) (a b : list N) (j : Z) : bool :=
+  match k with
+  | BAnd => mem1024 a j && mem1024 b j
+  | BOr => mem1024 a j || mem1024 b j
+  | BOrThenReverse => negb (mem1024 a j || mem1024 b j)
+  end.
+(* Bit64's own methods (Set / Unset take a byte and ignore positions above 63) *)
+Definition word_expect (k : wkind) (w : N) (arg j : Z) : bool :=
+  match k with
+  | WSet => ((arg <=? 63) && Z.eqb j arg) || mem64 w j
+  | WUnset => negb ((arg <=? 63) && Z.eqb j arg) && mem64 w j
+  | WAnd => mem64 w j && mem64 (Z.to_N arg) j
+  | WOr => mem64 w j || mem64 (Z.to_N arg) j
+  | WReverse => negb (mem64 w j)
+  end.
 
 (* ---- equality tests on outcomes ---- *)
 Fixpoint zl_eqb (x y : list Z) : bool :=
